@@ -11,7 +11,7 @@ META = {
          'Decides: request >= GetMinPwm()+offset on every non-error return; the offset only ever increases; the floor is raised only where request < GetMaxPwm() is established (the raised floor never passes the maximum); no forced SetMinPwm on the regulation path; the raise path returns >= stalled request + 1; non-neverStop fans have minimum 0.',
          'stall *detection* is C10; fan limits assumed 0<=min<=max<=255'),
  'C03': ('§4 C03', 'interprocedural typestate (must-pass-through) + channel typestate',
-         'Decides structural necessary conditions: every return of the control goroutine and the failed-initialisation return pass through a restore that ends in a confirmed mode switch-back to the recorded non-manual mode or SetPwm(255); the mode write is read back; the signal actor cancels the shared context; the notify channel is never closed without signal.Stop; every actor of the per-fan group returns the nil constant (a non-nil actor error reaches panic(err) in the daemon wrapper before any restore); every Fan.SetPwm implementation writes to the device on every path that reports success.',
+         'Decides structural necessary conditions: every return of the control goroutine and the failed-initialisation return pass through a restore that ends in a confirmed mode switch-back to the recorded non-manual mode or SetPwm(255); the mode write is read back; the signal actor cancels the shared context; the notify channel is never closed without signal.Stop; every actor of the per-fan group returns the nil constant (a non-nil actor error reaches panic(err) in the daemon wrapper before any restore); every Fan.SetPwm implementation writes to the device on every path that reports success; only one actor of the per-fan group (the one that hands the fan back) can drive the fan.',
          'driver behaviour, timing and a failing final PWM write are not decided'),
  'C04': ('§4 C04', 'units-of-measure inference (dimension type inference by unification over SSA) + value-provenance/must-pass-through rule + monotonicity abstract interpretation',
          'Decides three structural necessary conditions of "one steady target, the same for every algorithm": (R-scale) no value on the fan scale [min,max]/raw PWM is combined with, stored as, or passed for a value on the loop scale 0..255 anywhere in the controller and control-loop packages - in particular what ControlLoop.Cycle receives as current is on the same scale as its target; (R-feedback) that current value is the previous clamped result of Cycle, stored on every successful cycle; (R-clock) a loop routine that measures elapsed time against a remembered stamp refreshes the stamp on every path and is advanced only from control cycles / curve evaluations (not from constructors or start-up code); (R-ownloop) the ControlLoop handed to a controller is created per controller (not a shared package-level or cached instance whose state another fan advances); (R-mono-steady) the request is non-decreasing in the curve value through the direct loop, clamp and rescale.',
@@ -26,10 +26,10 @@ META = {
          'Decides, per code form, that the output is non-decreasing in the designated input: linear min/max ramp in the smoothed temperature (pieces ordered around the truncated ramp), the step-form wrapper and the interpolating expression inside one segment, function curves sum/minimum/maximum/average in every member value, DirectControlLoop.Cycle in its target, the target computation (curve value -> request) and the write routine (request -> value handed to Fan.SetPwm); (R-keys) the key list a lookup table is searched with is the sorted key set of that same table; (R-skip) the write is skipped only when a fresh successful read equals the value to be written (a stale value would break monotonicity of the PWM the fan runs at in the request).',
          'between different interpolation segments and inside util.FindClosest monotonicity is a stated hypothesis (relational loop invariants; not decided); premises of the property (non-decreasing steps / PWM map, min<max) and maxPwmChangePerCycle >= 0, fan max >= min are recorded hypotheses; IEEE rounding assumed monotone'),
  'C08': ('§4 C08', 'error-propagation path rules + interprocedural taint (non-finite floats)',
-         'Decides the fault clause (no Sensor.GetValue - nor util.SafeCmdExecution behind the command sensor - converts a failed read into a value; the monitor never updates the average after a failed read; no value parsed by strconv.ParseFloat reaches the average without IsNaN/IsInf guards) and no implementation reads through an open handle remembered in the sensor object (every poll opens the configured source anew) and the one-step hull clause in real arithmetic (the stored average is UpdateSimpleMovingAvg(old, window, reading) of the same sensor, which is proved to lie between old average and reading for window >= 1).',
+         'Decides the fault clause (no Sensor.GetValue - nor util.SafeCmdExecution behind the command sensor - converts a failed read into a value or keeps the value of a failed read in a field (a cache) for later calls; the monitor never updates the average after a failed read; no value parsed by strconv.ParseFloat reaches the average without IsNaN/IsInf guards) and no implementation reads through an open handle remembered in the sensor object (every poll opens the configured source anew) and the one-step hull clause in real arithmetic (the stored average is UpdateSimpleMovingAvg(old, window, reading) of the same sensor, which is proved to lie between old average and reading for window >= 1).',
          'floating-point rounding and the geometric convergence rate are not decided'),
  'C09': ('§4 C09', 'crash-site inventory over the call graph + error-propagation/taint rules',
-         'Decides: no panic / does-not-return call / unchecked error type assertion is reachable from the per-cycle entry points on an error path; curve errors are propagated; cycle errors never reach a panic or an actor return; all actor returns of the per-fan group and the sensor monitor are nil; when the control goroutine gives up on a fan every return passes the restore typestate shared with C03; the value result of a fallible library call (pointer/interface, error) is dereferenced only where that call\'s error is established nil (os.Stat after a successful EvalSymlinks with the not-found case handled is the one documented exception); (R-iodata) every index, slice expression and integer division on data that comes from a standard-library call (file contents, command output, split lines) in the functions reachable from the per-cycle entries is proved in bounds by a dominating length guard, range loop or the range analysis; (R-lastgood) a failed sensor read never reaches the moving-average update; (R-errnil) methods are invoked on error values only where they are established non-nil; (R-registered) every configured sensor/curve/fan is registered (no iteration of a registering loop is skipped).',
+         'Decides: no panic / does-not-return call / unchecked error type assertion is reachable from the per-cycle entry points on an error path; curve errors are propagated; cycle errors never reach a panic or an actor return; all actor returns of the per-fan group and the sensor monitor are nil; when the control goroutine gives up on a fan every return passes the restore typestate shared with C03; the value result of a fallible library call (pointer/interface, error) is dereferenced only where that call\'s error is established nil (os.Stat after a successful EvalSymlinks with the not-found case handled is the one documented exception); (R-iodata) every index, slice expression and integer division on data that comes from a standard-library call (file contents, command output, split lines) in the functions reachable from the per-cycle entries is proved in bounds by a dominating length guard, range loop or the range analysis; (R-lastgood) a failed sensor read never reaches the moving-average update; (R-errnil) methods are invoked on error values only where they are established non-nil; (R-registered) every configured sensor/curve/fan is registered (no iteration of a registering loop is skipped); (R-kept) the value of a fallible read is kept in an object field only where its error is nil.',
          'library internals (prometheus, echo) summarised; usefulness of continued regulation not decided'),
  'C10': ('§4 C10', 'symbolic range analysis + data-flow rule on the stall predicate',
          'Decides the step/termination structure (raise by >=1 on the stall path; (R-raise) the floor-raising store/call reached from the stall edge writes offset+k, k>=1, on every path, skipping only where GetMinPwm()+offset >= GetMaxPwm() is implied by the branch; stall at max returns the sentinel error which leads to restore), the poll structure (every poll of the RPM monitor feeds a reading into the average unless the RPM read itself failed; the polling goroutine ends only with the context) and the threshold precondition (a stall test against a non-positive constant on an exponential average can never fire once the fan has spun); not the latency itself.',
@@ -47,13 +47,13 @@ META = {
          'Decides isolation and transaction structure: each method uses the bucket constant of its kind and the fan id as key, all bucket access inside one Update closure, ErrNotExist/Delete/nil results on the documented paths, no method reports success on a path that did not run its transaction, sibling methods agree.',
          'JSON round-trip equality, durability and SIGKILL atomicity are bbolt run-time behaviour (not decided)'),
  'C15': ('§4 C15', 'guarded-path rules',
-         'Decides: the sweep is reachable from LoadFanPwmMap only across err!=nil or loaded-map==nil; a configured pwmMap returns before load and sweep; initialisation is reachable from LoadFanPwmData only across err!=nil; a measured map is saved before regulation starts; reset/init delete both entries. The README min/max clause is a known finding.',
+         'Decides: the sweep is reachable from LoadFanPwmMap only across err!=nil or loaded-map==nil; a configured pwmMap returns before load and sweep; initialisation is reachable from LoadFanPwmData only across err!=nil; a measured map is saved before regulation starts; reset/init delete both entries; on the daemon path stored data is deleted only where it cannot be decoded (R-keep). The README min/max clause is a known finding.',
          'process-level behaviour of the database not decided'),
  'C16': ('§4 C16', 'flag-specialised must-lockset analysis',
          'Decides mutual exclusion by lock coverage: with runFanInitializationInParallel=false every Fan.SetPwm reachable from the analysis entry points holds the global initialisation mutex, one analysis holds it without a gap, and fan-driving work handed to a goroutine is joined (unconditional receive / WaitGroup.Wait) on every path before the spawner returns and releases the mutex.',
          'sound for mutex-based exclusion; restore path excluded'),
  'C17': ('§4 C17', 'value-provenance templates + guarded-path + crash-site rules',
-         'Decides: sysfs paths are SysfsPath/fan<rpm>_input, pwm<pwm>, pwm<pwm>_enable and all HwMonFan I/O uses them; pwmChannel defaulted only when 0; index/channel compared for every candidate; no-match returns an error; a sensor index is the running position among the chip\'s temperature inputs (discovery keys the map with a counter, not with a number from the device name); no unchecked map/index/assert in binding code; no in-place filtering of a parameter device list (R-alias); (R-holes) the device lists of the discovery/binding packages contain no nil element (a list of pointers pre-sized with make(n) must store its slot in every iteration).',
+         'Decides: sysfs paths are SysfsPath/fan<rpm>_input, pwm<pwm>, pwm<pwm>_enable and all HwMonFan I/O uses them; pwmChannel defaulted only when 0; index/channel compared for every candidate; no-match returns an error; a sensor index is the running position among the chip\'s temperature inputs (discovery keys the map with a counter, not with a number from the device name); no unchecked map/index/assert in binding code; no in-place filtering of a parameter device list (R-alias); every device-path field of the entry is recomputed together with the three known paths; (R-holes) the device lists of the discovery/binding packages contain no nil element (a list of pointers pre-sized with make(n) must store its slot in every iteration).',
          'regex semantics and enumeration-order independence beyond first-match not decided'),
  'C18': ('§4 C18', 'who-may-call + dominance (guarded-path) + predicate-path rules',
          'Decides the property at the level of code paths: only the checked entry point creates processes with a non-constant program; the exec call is reachable only through the nil-error edge of the permission check on the same value in the same activation (no memoisation); the check establishes uid==0, (gid==0 or no group write), no other write on the resolved file; nothing changes how the checked program string is resolved between check and start (no store to Cmd.Dir/Path/Args); (R-once) one successful check licenses one process start: after a process-creating call no further one is reachable in the same activation without crossing the nil-error edge of a new check (no retry loop around the start); the validator applies it to the config file whenever a cmd entry exists; the daemon starts only after validation.',
